@@ -43,6 +43,13 @@ pub(crate) fn encrypt(
     let (key, nonce) = key_and_nonce(garbling_key);
     let cipher = ChaCha20Poly1305::new(&key);
     let bytes = serialize(&triple).map_err(|e| Error::Serde(format!("{e:?}")))?;
+    #[cfg(feature = "__verif")]
+    let bytes = {
+        let mut bytes = bytes;
+        let idx = garbling_key.w * 4 + garbling_key.row as usize;
+        crate::verif::tap_vec("garble_plain", idx, &mut bytes);
+        bytes
+    };
     let ciphertext = cipher
         .encrypt(&nonce, bytes.as_ref())
         .map_err(|_| Error::EncryptionFailed)?;
